@@ -343,15 +343,31 @@ func streamSchedClose(o *Out, rng *rand.Rand, thorough bool, _ []string) {
 		mk(60, 1),    // 60 chunks: more than the 25-slot matrix buffer and the 2-slot chunk pipe
 		mk(8, 2),
 	}
+	{
+		// a metadata document in front of every chunk (concatenated files, SetMetadata between flushes): the reader
+		// goroutine is regularly holding a metadata document when the consumer stops
+		var st []byte
+		for c := 0; c < 12; c++ {
+			docs := genDocs(rng, []*Schema{{Key: "a", Tag: 0x12, Gen: int64Gen(rng)}}, 1)
+			st = append(st, collect("base", 1, docBytes([]*Node{i64n("gen", int64(c))}), docs)...)
+		}
+		shapes = append(shapes, st)
+	}
 	var lines []string
 	for si, st := range shapes {
 		for _, rd := range closeReaderNames {
-			total := map[string]int{"chunks": len(topDocs(st)), "matrix": len(topDocs(st)), "series": len(topDocs(st))}[rd]
+			nchunks := 0
+			for _, td := range topDocs(st) {
+				if td.payload != nil {
+					nchunks++
+				}
+			}
+			total := map[string]int{"chunks": nchunks, "matrix": nchunks, "series": nchunks}[rd]
 			if total == 0 {
-				total = []int{3, 250, 60, 8}[si]
+				total = []int{3, 250, 60, 8, 12}[si]
 			}
 			if rd == "citer" || rd == "csiter" {
-				total = []int{3, 250, 1, 2}[si] // samples of the first chunk
+				total = []int{3, 250, 1, 2, 1}[si] // samples of the first chunk
 			}
 			ks := []int{0, 1, 2, total / 2, total - 1, total, total + 1}
 			if thorough {
